@@ -215,6 +215,53 @@ IDENTITIES = [
 ]
 
 
+def identity_class(f, init, depth=0):
+    """'zero' / 'true' / '+inf' / '-inf' / 'max' / 'lowest' / 'empty box' (or a composition) if the expression is such a
+    constant, resolving const locals; None otherwise"""
+    n = T.strip_copy(init)
+    while n.get('k') in ('mtemp', 'bindtemp', 'paren') and 'e' in n:
+        n = T.strip_copy(n['e'])
+    k = n.get('k')
+    if depth > 6:
+        return None
+    if k in ('int', 'flt'):
+        return 'zero' if n['v'] in (0, 0.0) else ('+inf' if n['v'] in ('inf', '+inf') else
+                                                  ('-inf' if n['v'] == '-inf' else None))
+    if k == 'bool':
+        return 'true' if n['v'] else 'false'
+    if k == 'un' and n.get('op') == '-':
+        c = identity_class(f, n['e'], depth + 1)
+        return {'+inf': '-inf', '-inf': '+inf', 'zero': 'zero', 'max': 'lowest'}.get(c)
+    if k == 'call':
+        fn = n.get('fn', '')
+        if 'numeric_limits' in fn:
+            return {'infinity': '+inf', 'max': 'max', 'lowest': 'lowest', 'min': None}.get(T.short(fn))
+        return None
+    if k == 'var' and n.get('s') == 'l':
+        defs = []
+        for b in f['blocks']:
+            for e in b['ev']:
+                if e.get('k') == 'decl':
+                    for v in e['vars']:
+                        if v['n'] == n['n'] and v.get('init') is not None:
+                            defs.append(v['init'])
+                if e.get('k') == 'bin' and e.get('op', '').endswith('=') and e['op'] not in ('==', '!=', '<=', '>=') and \
+                        T.strip(e['l']).get('k') == 'var' and T.strip(e['l'])['n'] == n['n']:
+                    return None       # reassigned: not a constant
+        if len(defs) == 1:
+            return identity_class(f, defs[0], depth + 1)
+        return None
+    if k in ('ctor', 'ilist', 'cast'):
+        args = n.get('args', []) if k != 'cast' else [n.get('e')]
+        if not args:
+            return 'empty box' if any(x in (n.get('cls') or '') for x in ('Box', 'Rect')) else 'zero'
+        cs = [identity_class(f, a, depth + 1) for a in args if a is not None]
+        if cs and all(cs):
+            return '/'.join(sorted(set(cs)))
+        return None
+    return None
+
+
 def rule5(chk, db, cfgname, tab):
     chk.rule('C13.5', 'every library call of manifold::reduce / transform_reduce passes an init that is an identity of '
              'its operator (0 for plus, true for &&, +inf/-inf or numeric max/min for min/max), which is what keeps '
@@ -243,6 +290,14 @@ def rule5(chk, db, cfgname, tab):
                     n += 1
                     r = reviewed.get(key)
                     ok = r is not None
+                    if not ok:
+                        # not a reviewed (function, text) pair: decide by the VALUE of the init - a constant of an
+                        # identity class (0, true, +-infinity, numeric max/lowest, an empty Box/Rect, or a vec/pair
+                        # built from those), with const locals resolved to their initialisers
+                        cls = identity_class(f, init)
+                        if cls:
+                            ok = True
+                            r = {'operator': 'identity-class constant: ' + cls}
                     chk.obligation(ok, {'function': key[0], 'init': s, 'identity of': r['operator'] if r else
                                         'UNREVIEWED'})
                     if not ok:
